@@ -124,3 +124,87 @@ def closure_bodies(facts, fn, depth=2, allow=None):
             rec(callee, d - 1)
     if fn.get('body') is not None: rec(fn, depth)
     return out
+
+
+# ---- local lambdas -------------------------------------------------------------------------------------------------------------
+def _lambda_of(init):
+    e = init
+    while e is not None and e.get('k') in ('ExprWithCleanups', 'MaterializeTemporaryExpr', 'CXXBindTemporaryExpr', 'ImplicitCastExpr', 'CXXConstructExpr', 'ParenExpr'):
+        if e.get('k') == 'CXXConstructExpr':
+            a = e.get('args') or []
+            if len(a) != 1: return None
+            e = a[0]
+        else:
+            e = e.get('sub')
+    return e if e is not None and e.get('k') == 'LambdaExpr' else None
+
+def desugar_lambdas(body, depth=2):
+    """A maintainer may wrap a repeated statement sequence in a local lambda:
+
+        auto fail = [&](errc e) { ec = e; more_ = false; return val; };  ...  return fail(errc::eof);
+
+    The rules analyse statements.  This pass replaces a call of such a lambda *in statement position* - `return f(args);` or `f(args);` -
+    by the statements of its body with the parameters replaced by the (side-effect free) arguments, which means the same: the lambda
+    captures everything by reference, is never reassigned, and a body used in `f(args);` position has no return other than a final one.
+    Anything else (by-copy captures, calls inside expressions, impure arguments) is left as it is."""
+    if not isinstance(body, dict) or depth <= 0: return body
+    lams = {}
+    for x in A.walk(body):
+        if x.get('k') == 'VarDecl' and x.get('init') is not None:
+            le = _lambda_of(x['init'])
+            if le is not None and le.get('capref') and isinstance(le.get('params'), list) and isinstance(le.get('body'), dict):
+                lams[x.get('id')] = le
+    if not lams: return body
+    for i in A.mutated_ids(body): lams.pop(i, None)
+    if not lams: return body
+    changed = [False]
+    def call_of(e):
+        while e is not None and e.get('k') in ('ExprWithCleanups', 'ParenExpr', 'ImplicitCastExpr', 'MaterializeTemporaryExpr', 'CXXBindTemporaryExpr', 'CXXFunctionalCastExpr', 'CStyleCastExpr', 'CXXStaticCastExpr'):
+            e = e.get('sub')
+        if e is None or e.get('k') != 'CXXOperatorCallExpr' or e.get('oop') != '()': return None
+        a = e.get('args') or []
+        if not a: return None
+        f = A.strip(a[0], casts=True)
+        if f is None or f.get('k') != 'DeclRefExpr' or f.get('id') not in lams: return None
+        le = lams[f['id']]
+        if len(le['params']) != len(a) - 1: return None
+        if not all(A.pure_expr(x, True) for x in a[1:]): return None
+        return le, a[1:]
+    def body_of(le, args):
+        mapping = {p['id']: a for p, a in zip(le['params'], args)}
+        return _subst(copy.deepcopy(le['body']), mapping)
+    def returns_in(b):
+        return [y for y in A.walk_no_lambda(b) if y.get('k') == 'ReturnStmt']
+    def tx(stmt):
+        if isinstance(stmt, list): return [tx(x) for x in stmt]
+        if not isinstance(stmt, dict): return stmt
+        k = stmt.get('k')
+        if k == 'LambdaExpr': return stmt
+        if k == 'ReturnStmt':
+            r = call_of(stmt.get('val'))
+            if r is not None:
+                changed[0] = True
+                return body_of(*r)
+            return stmt
+        r = call_of(stmt) if k in ('CXXOperatorCallExpr', 'ExprWithCleanups', 'ParenExpr') else None
+        if r is not None:
+            b = body_of(*r)
+            rets = returns_in(b)
+            top = b.get('c') or [] if b.get('k') == 'CompoundStmt' else []
+            if not rets or (len(rets) == 1 and top and top[-1] is rets[0] and (rets[0].get('val') is None or A.pure_expr(rets[0]['val'], True))):
+                changed[0] = True
+                return dict(b, c=[x for x in top if not rets or x is not rets[0]])
+            return stmt
+        if k == 'CompoundStmt': return dict(stmt, c=[tx(c) for c in stmt.get('c') or []])
+        if k == 'IfStmt': return dict(stmt, **{'then': tx(stmt.get('then')), 'else': tx(stmt.get('else'))})
+        if k in ('ForStmt', 'WhileStmt', 'DoStmt', 'CXXForRangeStmt', 'SwitchStmt', 'InlinedCall', 'CXXTryStmt', 'CXXCatchStmt'):
+            out = dict(stmt)
+            if stmt.get('body') is not None: out['body'] = tx(stmt['body'])
+            if isinstance(stmt.get('handlers'), list): out['handlers'] = tx(stmt['handlers'])
+            return out
+        if k in ('CaseStmt', 'DefaultStmt', 'LabelStmt', 'AttributedStmt'):
+            return dict(stmt, sub=tx(stmt.get('sub'))) if stmt.get('sub') is not None else stmt
+        return stmt
+    out = tx(body)
+    if not changed[0]: return body
+    return desugar_lambdas(out, depth - 1)
